@@ -155,6 +155,12 @@ func (cc *ClientConn) Authorize(access int) bool {
 func (cc *ClientConn) Disconnect() {
 	cc.Server.ClientMgr.Delete(cc.ID)
 
+	// A user that is gone is a member of no private chat any more.  Its user ID may be handed to another connection
+	// later, which must not inherit the chats.
+	if cm, ok := cc.Server.ChatMgr.(interface{ LeaveAll(clientID [2]byte) }); ok {
+		cm.LeaveAll(cc.ID)
+	}
+
 	for _, t := range cc.NotifyOthers(NewTransaction(TranNotifyDeleteUser, [2]byte{}, NewField(FieldUserID, cc.ID[:]))) {
 		cc.Server.outbox <- t
 	}
